@@ -75,12 +75,12 @@ def parsePositional (c : ECmd) (posIndex : Nat) (isEscaped : Bool) (st : PS) : O
     else if isEscaped then (.pos posIndex 1, posIndex + 1) else (.valueDone, posIndex + 1)
   match st with
   | .valueDone => some fresh
+  | .opt _ _ => some fresh
   | .pos prev n =>
     if prev == posIndex then
       if n + 1 < numArgs then some (.pos posIndex (n + 1), posIndex)
       else if isEscaped then some (.pos posIndex 1, posIndex + 1) else some (.valueDone, posIndex + 1)
     else some fresh
-  | .opt _ _ => none
 
 /-- `parse_opt_value` -/
 def parseOptValue (a : EArg) (count : Nat) : PS := if count < a.maxVals then .opt a (count + 1) else .valueDone
@@ -141,20 +141,24 @@ def stepTok (cur : ECmd) (posIndex : Nat) (isEscaped : Bool) (st : PS) (tok : By
 /-! ### candidates -/
 
 def b_dd : Bytes := [dash, dash]
+/-- `arg::` -/
+def idArg (i : Bytes) : Bytes := [97, 114, 103, 58, 58] ++ i
+/-- `command::` -/
+def idCmd (i : Bytes) : Bytes := [99, 111, 109, 109, 97, 110, 100, 58, 58] ++ i
 
 def longCands (c : ECmd) : List Cand :=
-  c.args.flatMap fun a => a.longs.map fun l => { value := b_dd ++ l, hidden := a.hide, id := some a.id }
+  c.args.flatMap fun a => a.longs.map fun l => { value := b_dd ++ l, hidden := a.hide, id := some (idArg a.id) }
 
 def hiddenLongCands (c : ECmd) : List Cand :=
-  c.args.flatMap fun a => a.hiddenLongs.map fun l => { value := b_dd ++ l, hidden := true, id := some a.id }
+  c.args.flatMap fun a => a.hiddenLongs.map fun l => { value := b_dd ++ l, hidden := true, id := some (idArg a.id) }
 
 def shortCands (c : ECmd) (pfx : Bytes) : List Cand :=
-  c.args.flatMap fun a => a.shorts.map fun s => { value := pfx ++ s, hidden := a.hide, id := some a.id }
+  c.args.flatMap fun a => a.shorts.map fun s => { value := pfx ++ s, hidden := a.hide, id := some (idArg a.id) }
 
 def subCands (c : ECmd) (v : Bytes) : List Cand :=
   (c.subs.flatMap fun sc =>
-    (sc.names.map fun n => ({ value := n, hidden := sc.hide, id := some (sc.names.headD []) } : Cand)) ++
-    (sc.hiddenAliases.map fun n => ({ value := n, hidden := true, id := some (sc.names.headD []) } : Cand))).filter
+    (sc.names.map fun n => ({ value := n, hidden := sc.hide, id := some (idCmd (sc.names.headD [])) } : Cand)) ++
+    (sc.hiddenAliases.map fun n => ({ value := n, hidden := true, id := some (idCmd (sc.names.headD [])) } : Cand))).filter
     fun cand => startsWith cand.value v
 
 /-- `rsplit_delimiter` on a UTF-8 value -/
@@ -248,7 +252,9 @@ def loop : ECmd → Nat → Bool → PS → Nat → List Bytes → Out
 /-- `complete(cmd, args, arg_index)` -/
 def complete (c : ECmd) (args : List Bytes) (argIndex : Nat) : Out :=
   if c.noBinaryName then loop c 1 false .valueDone argIndex args
-  else if argIndex == 0 then .noCompletion     -- the cursor is on the binary name, which the loop skips
+  else if argIndex == 0 then
+    -- the cursor is on the binary name, which the loop skips: every token is walked, none is completed
+    loop c 1 false .valueDone (args.length + 1) (args.drop 1)
   else loop c 1 false .valueDone (argIndex - 1) (args.drop 1)
 
 end Engine
